@@ -6,13 +6,13 @@ import random
 
 from common import hx, unhx
 
-SPECIAL = ["a", " ", "\t", "\n", "$", "`", '"', "'", "\\", "*", "?", "[", "]", "~", "#", ";", "&", "|", "(", ")", "<", ">", "{", "}", "!", "=", "é", ":", "-", "/", "."]
+SPECIAL = ["a", " ", "\t", "\n", "$", "`", '"', "'", "\\", "*", "?", "[", "]", "~", "#", ";", "&", "|", "(", ")", "<", ">", "{", "}", "!", "=", "é", ":", "-", "/", ".", "\r"]
 
 
 class P:
     id = "C15"
     exhaustive = True
-    rule = ("exhaustive: every string of <= 3 (quick; 4 thorough) symbols over 31 special characters (blanks, newline, $ ` \" ' \\ * ? [ ] ~ # ; & | ( ) < > { } ! = "
+    rule = ("exhaustive: every string of <= 3 (quick; 4 thorough) symbols over 32 special characters (CR among them) (blanks, newline, $ ` \" ' \\ * ? [ ] ~ # ; & | ( ) < > { } ! = "
             "multi-byte : - / .); paths with . and .. components; random longer strings with multi-byte runes and newlines; each x 4 quoting styles x 5 ExpModes x 3 option sets x 4 IFS values; "
             "1/50 of them with matching files in the working directory. Non-trivial = length >= 1 with a special character; distinct strings counted")
     assumptions = ["strings are valid UTF-8 without NUL (the lexer reads runes)"]
@@ -21,7 +21,7 @@ class P:
         rnd = random.Random(seed)
         L = 2 if tier == "quick" else 3
         strs = ["".join(t) for n in range(L + 1) for t in itertools.product(SPECIAL, repeat=n)]
-        strs += ["".join(rnd.choice(SPECIAL + ["b", "日", "x y"]) for _ in range(rnd.randint(3, 10))) for _ in range(3000 if tier == "quick" else 40000)]
+        strs += ["".join(rnd.choice(SPECIAL + ["b", "日", "x y", "\r\n"]) for _ in range(rnd.randint(3, 10))) for _ in range(3000 if tier == "quick" else 40000)]
         cases = ["%s\t%s" % (hx(s), "1" if k % 50 == 0 else "0") for k, s in enumerate(strs)]
         # paths that exist in every directory, or once a file named like the string has been created: pathname expansion must
         # give the quoted text back unchanged
